@@ -201,7 +201,12 @@ def do_check(pid, mod, args, seed, scratch):
     # 3. counterexamples -> clean replay
     violations = list(regressions)
     harness_errors = []
+    ks_failed = []
     for r in results:
+        if r.get("kind") == "ks":
+            if r.get("verdict") != "confirmed":
+                ks_failed.append((r["name"], r.get("ks_failed") or r.get("errors")))
+            continue
         if r.get("verdict") == "error":
             harness_errors.append((r["name"], r.get("errors")))
         for e in r.get("errors", []) or []:
@@ -227,7 +232,8 @@ def do_check(pid, mod, args, seed, scratch):
     docs = []
     for r in results:
         for smp in (r.get("samples") or [])[:6]:
-            docs.append({"property": pid, "shard": r["spec"], "witness": smp["witness"]})
+            if "witness" in smp:
+                docs.append({"property": pid, "shard": r["spec"], "witness": smp["witness"]})
     functions = []
     if docs:
         try:
@@ -296,6 +302,8 @@ def do_check(pid, mod, args, seed, scratch):
                 }
                 for r in results
             ],
+            "ks_obligations": [o for r in results if r.get("kind") == "ks" for o in r.get("ks_obligations", [])],
+            "ks_translator_validation": next((r.get("ks_translator_validation") for r in results if r.get("kind") == "ks"), None),
             "samples": [dict(s, shard=r["name"]) for r in results for s in (r.get("samples") or [])[:2]][:60] or [{"note": "no path completed"}],
             "trusted_base": ["CrossHair 0.0.110 core", "z3 (wheel)", "sx/models.py supplement (self-tested)", "stubs listed under 'stubs'", "CPython 3.12"],
         },
@@ -318,8 +326,32 @@ def do_check(pid, mod, args, seed, scratch):
         print(f"VIOLATION property={pid} replay={rp}")
     if len(violations) > 4:
         print(f"[{pid}] ... and {len(violations) - 4} more reproduced counterexamples (replays/ has them all)")
+    for name, info in ks_failed:
+        print(f"[{pid}] KS-OBLIGATION-NOT-DISCHARGED in {name}: {json.dumps(info, default=str)[:800]}")
+        # replay the solver's iteration against the real function (fresh start = reachable state); report only what reproduces
+        for ob in info or []:
+            rep = ob.get("replay") if isinstance(ob, dict) else None
+            if not rep:
+                continue
+            doc = {"property": pid, "shard": {"name": "ks-replay/" + ob["obligation"], "scenario": "props.c11:ks_replay", "params": rep}, "witness": []}
+            rr = clean_replay(doc, scratch)
+            if rr.get("ok") is False:
+                h = hashlib.sha1(json.dumps(doc, sort_keys=True, default=str).encode()).hexdigest()[:10]
+                os.makedirs(os.path.join(HERE, "replays"), exist_ok=True)
+                rp = os.path.join(HERE, "replays", f"{pid}-ks-{h}.json")
+                doc["detail"] = rr.get("detail")
+                json.dump(doc, open(rp, "w"), indent=1, default=str)
+                print(f"[{pid}] KS counterexample reproduces on the real function: {str(rr.get('detail'))[:400]}")
+                print(f"VIOLATION property={pid} replay={rp}")
+                violations.append((name, rp, rr.get("detail")))
+                break
     if violations:
         return EXIT_VIOLATION
+    if ks_failed:
+        # an inductive obligation failed but no bounded execution reproduced a violation: never reported as VIOLATION
+        # (the loop-head state may be unreachable) and never as a pass
+        print(f"[{pid}] HARNESS-ERROR: KS obligation(s) not discharged and no reproducing counterexample from the SX shards")
+        return EXIT_HARNESS
     if harness_errors:
         for name, e in harness_errors[:10]:
             print(f"[{pid}] HARNESS-ERROR in {name}: {json.dumps(e, default=str)[:1500]}")
